@@ -93,6 +93,9 @@ class Runner(RuleBasedStateMachine):
         odir=st.sampled_from([None, None, "/results2", "/results/renamed.root", "/out2"]),
         fault=st.sampled_from([None, None, None, "setup", "build0", "build1", "job", "sudo", "convert", "copy"]),
     )
+    def invoke_rule(self, flags, dfile, odir, fault):
+        self.invoke(flags, dfile, odir, fault)
+
     def invoke(self, flags, dfile, odir, fault):
         be = self.backend
         args = flags.split() if flags else []
@@ -140,7 +143,7 @@ class Runner(RuleBasedStateMachine):
             seq, new_state, ok = expected_tools(be, self.state, compile_, run, self.calib)
             if seq is None:
                 exp_seq = None
-            elif tool is not None and tool in seq:
+            elif tool is not None and tool in seq and any(l.startswith("FAULT ") for l in log):
                 reached = True
                 cut = seq.index(tool) + 1
                 exp_seq = seq[:cut]
@@ -153,8 +156,15 @@ class Runner(RuleBasedStateMachine):
                 exp_seq = seq
                 if not ok and compile_ and self.state == "fresh":
                     new_state = "partial"
-            if exp_seq is not None and tools_run != exp_seq:
-                viol("tool-sequence", f"tools invoked {tools_run}, expected {exp_seq}")
+            # which tools exactly a script calls is its own business; the property constrains only:
+            #  - the exit status and what is (not) delivered (checked below),
+            #  - no job with -c, no build tool with -r (checked below),
+            #  - without a failure every phase that was asked for must have happened.
+            faulted = any(l.startswith("FAULT ") for l in log)
+            if exp_seq is not None and not faulted and ok is True:
+                missing = [t for t in exp_seq if t not in tools_run and t not in ("sudo",)]
+                if missing:
+                    viol("phase-skipped", f"the invocation should have run {exp_seq}; {missing} never ran (ran: {tools_run})")
             if ok is True and rc != 0:
                 viol("spurious-failure", f"exit {rc} although every step succeeded; output tail: {out[-300:]!r}")
             if ok is False and rc == 0:
@@ -182,6 +192,16 @@ class Runner(RuleBasedStateMachine):
         labels = [f"backend={be}", "flags=" + (flags or "none"), "fault=" + str(fault), f"exit={rc if rc in (0, 1, 10) else 'other'}", "state=" + self.state] + (["fault-reached"] if reached else [])
         stats.case(jdump([be, self.calib, [(h["args"], h["fault"]) for h in self.history]]), nt, labels,
                    {"backend": be, "history": [f"runner.sh {' '.join(h['args'])}" + (f" [fault: {h['fault']}]" if h["fault"] else "") + f" -> exit {h['rc']}" for h in self.history]})
+
+    @precondition(lambda self: self.state == "built")
+    @rule(
+        dfile=st.sampled_from([None, "/data/a.root", "/data/b.root", "root://host//b.root"]),
+        odir=st.sampled_from([None, "/results2", "/results/renamed.root", "/out2"]),
+        fault=st.sampled_from([None, "job", "job", "convert", "copy", "sudo", "setup", None]),
+    )
+    def rerun(self, dfile, odir, fault):
+        """run-only invocations against an existing build (where stale outputs and inputs of earlier runs lie around)"""
+        self.invoke("-r", dfile, odir, fault)
 
     def teardown(self):
         self.jail.cleanup()
@@ -266,7 +286,7 @@ def replay(case):
                     continue
                 rest.append(a)
             try:
-                Runner.invoke.hypothesis_stateful_rule.function(m, " ".join(rest), dfile, odir, rev.get(fault_tool))
+                m.invoke(" ".join(rest), dfile, odir, rev.get(fault_tool))
             except Violation as v:
                 out.append({"key": v.key, "what": v.what})
                 break
